@@ -11,6 +11,14 @@ nondimAff / dimensionalizeAff / convertAff, and the round trips / unit independe
 the real code with tolerances scaled to the Kelvin magnitude.
 Sentinel probes evaluate the property itself on the real code; the hypotheses of the rounding
 model used by T18.3/T18.4 are validated with exact rational arithmetic.
+Float vectors are compared ENTRY BY ENTRY (relative 1e-9 of each entry, `corr_elementwise`).  The orbital
+reduction is also modelled in double arithmetic (`orbfl`: exact floor, every operation rounded by fl53)
+and compared bit for bit with the eager implementation; its range check is [0, 2pi + 2^-53 (|x| + 2*2pi)]
+(key `orbital-range-widened`), and the literal range [0, 2pi) of the property statement is measured on
+realistic model times and reported under the key `orbital-range` (a failure when that key is a recorded
+known finding, a note otherwise).  What the code does at the excluded points of the theorems (zero
+divisor, negative power of zero, zero scale, fractional exponents, jax arrays on the timedelta array
+path, stamps off the minute grid of the reference) is recorded in the distribution / notes.
 """
 import datetime
 import dataclasses
